@@ -137,9 +137,9 @@ Proof.
   destruct ok; inversion H; subst; cbn; auto 10.
 Qed.
 
-Variable method_kind : list N -> N.
-Variable req_ok : list N -> bool.
-Variable service : list N -> list N -> option sres.
+Variable method_kind : N -> list N -> N.
+Variable req_ok : N -> list N -> bool.
+Variable service : N -> list N -> list N -> option sres.
 Notation dispatch := (dispatch method_kind req_ok service).
 
 Lemma request_complete_rpc cl ok r q res r' evs :
@@ -171,14 +171,14 @@ Lemma handle_request_rpc cl ok r m r' evs :
   streams evs = [].
 Proof.
   unfold handle_request. intros H.
-  destruct (method_kind (m_name m) =? 3); [inversion H; subst; cbn; auto 10|].
-  destruct (method_kind (m_name m) =? 0).
+  destruct (method_kind (svc r) (m_name m) =? 3); [inversion H; subst; cbn; auto 10|].
+  destruct (method_kind (svc r) (m_name m) =? 0).
   - destruct (send_msg _ _ _ _) as [[r1 e1] b1] eqn:E. inversion H; subst.
     apply send_msg_rpc in E. exact E.
-  - destruct (negb (req_ok (m_buf m))); [inversion H; subst; cbn; auto 10|].
+  - destruct (negb (req_ok (svc r) (m_buf m))); [inversion H; subst; cbn; auto 10|].
     destruct (supersede cl ok r (m_id m)) as [r1 evs1] eqn:E1.
     apply supersede_rpc in E1 as (S1 & S2 & S3 & S4 & S5).
-    destruct (service (m_name m) (m_buf m)) as [res|].
+    destruct (service (svc r) (m_name m) (m_buf m)) as [res|].
     + destruct (request_complete _ _ _ _ _) as [r3 evs3] eqn:E3. inversion H; subst.
       apply request_complete_rpc in E3 as (T1 & T2 & T3 & T4 & T5). cbn in T1, T2, T3.
       rewrite dones_app, streams_app, S4, S5.
@@ -201,15 +201,15 @@ Proof.
     + destruct (m_type m =? STREAM_REQUEST);
         [|inversion H; subst; cbn; rewrite app_nil_r; split; [exact HJ|reflexivity]].
       unfold handle_stream_request in H.
-      destruct (method_kind (m_name m) =? 3);
+      destruct (method_kind (svc r) (m_name m) =? 3);
         [inversion H; subst; cbn; rewrite app_nil_r; split; [exact HJ|reflexivity]|].
-      destruct (method_kind (m_name m) =? 0).
+      destruct (method_kind (svc r) (m_name m) =? 0).
       * destruct (send_msg _ _ _ _) as [[r1 e1] b1] eqn:E. inversion H; subst.
         apply send_msg_rpc in E as (S1 & S2 & S3 & S4 & S5). rewrite S4, app_nil_r.
         split; [eapply J_same; eauto|exact S5].
-      * destruct (negb (method_kind (m_name m) =? 2));
+      * destruct (negb (method_kind (svc r) (m_name m) =? 2));
           [inversion H; subst; cbn; rewrite app_nil_r; split; [exact HJ|reflexivity]|].
-        destruct (negb (req_ok (m_buf m))); inversion H; subst; cbn; rewrite app_nil_r;
+        destruct (negb (req_ok (svc r) (m_buf m))); inversion H; subst; cbn; rewrite app_nil_r;
           (split; [exact HJ|reflexivity]).
 Qed.
 
@@ -386,10 +386,11 @@ Qed.
 Lemma run_J ops : forall f r f' r' evs tr,
   JT r tr -> run f r ops = (f', r', evs) -> JT r' (tr ++ evs).
 Proof.
-  exact (run_P decode method_kind req_ok service JT JT_frame JT_dispatch JT_call JT_complete ops).
+  refine (run_P decode method_kind req_ok service JT JT_frame JT_dispatch JT_call JT_complete _ ops).
+  intros r tr k H. exact H.
 Qed.
 
-Lemma JT_init : s0 < 4294967296 -> JT (mkRpc false s0 0 [] 0 [] []) [].
+Lemma JT_init : s0 < 4294967296 -> JT (mkRpc false s0 0 [] 0 [] [] 0) [].
 Proof.
   intros Hs. unfold JT, J; cbn. repeat split; try discriminate; try lia; try contradiction.
   unfold idof. rewrite N.add_0_r. symmetry. apply u32_id. exact Hs.
@@ -397,7 +398,7 @@ Qed.
 
 Lemma run_once ops f r tr :
   s0 < 4294967296 ->
-  run init_frame (mkRpc false s0 0 [] 0 [] []) ops = (f, r, tr) ->
+  run init_frame (mkRpc false s0 0 [] 0 [] [] 0) ops = (f, r, tr) ->
   J r (dones tr) (dispatched tr) (streams tr).
 Proof.
   intros Hs H. apply (run_J ops _ _ _ _ _ [] (JT_init Hs)) in H. exact H.
